@@ -132,6 +132,11 @@ def rms(v):
 def oracle_lag(xp, yp, d):
     """sum_n x[n+d] conj(y[n]) over the overlap, any integer d (explicit loop: independent of numpy/scipy correlate)"""
     N = len(xp); s = 0j
+    if N > 96:
+        # long records: the same sum over array slices (elementwise products, no correlate / convolve / FFT)
+        if d >= 0:
+            return complex(np.sum(np.asarray(xp[d:], dtype=complex) * np.conj(np.asarray(yp[:N - d], dtype=complex)))) if d < N else 0j
+        return complex(np.sum(np.asarray(xp[:N + d], dtype=complex) * np.conj(np.asarray(yp[-d:], dtype=complex)))) if -d < N else 0j
     for n in range(N):
         if 0 <= n + d < N:
             s += xp[n + d] * np.conj(yp[n])
@@ -534,7 +539,16 @@ def run(ctx):
         N = max(lx, ly)
         ml = [None, 0, N - 1, int(rng.integers(0, N)), int(rng.integers(0, N)), N + int(rng.integers(0, 3))][int(rng.integers(0, 6))]
         if very_long:
-            ml = int(rng.integers(0, 6))          # the reference lag sums are O(N * maxlags) Python loops
+            ml = int(rng.integers(0, 6))          # the implementation's lag sums are O(N * maxlags) Python loops
+        if it % 8 == 3 and y is None:
+            # transform-size boundaries: N + maxlags - 1, N + maxlags or 2N - 1 an exact power of two (where a zero-padded transform of the
+            # "next power of two" length is exactly too short / just long enough), N just above a power of two
+            T = int(rng.choice([64, 128, 256, 512, 1024])); kind = int(rng.integers(0, 4))
+            lx = int(rng.integers(T // 2 + 2, T + 1)); ml = [T + 1 - lx, T - lx, T + 1 - lx, 0][kind]
+            if kind == 3:
+                lx = T + 1
+            ml = max(0, min(ml, lx - 1))
+            x = search_data(rng, lx, cx, style); N = lx; ly = lx
         norm = NORMS[int(rng.integers(0, 4))]
         xform = str(rng.choice(['array', 'array', 'list'])); yform = str(rng.choice(['array', 'array', 'list']))
         xin = as_input(x, xform); yin = as_input(y, yform)
